@@ -38,8 +38,8 @@ CLAIMS = {
         "design_ref": "DESIGN.md section 6 C05",
     },
     'C06': {
-        "text": "check_sound (acceptance => on the gate's qubits, matrices agree up to one factor within 1e-8+1e-5|.|), completeness in the exact regime, empty list accepted for an identity gate, foreign qubits rejected first, failure state of the loop, replacer keyed on the generator name, and the embedding theorem (what was compared on k qubits is what happens on n). (gate, candidate) pairs with perturbations and faulty decomposers at every position. The checker's verdict is carried from the gate's own qubits to the register (check_exact_lifts, check_sound_lifts); replace(CNOT->H CZ H) and (CZ->H CNOT H) preserve the operation on any register; the repaired comparison (phase reference = largest entry, tolerance ATOL) is modelled and re-proved (argmax_entry_spec, equiv_up_to_phase_well_conditioned).",
-        "note": "Trusted: Coq kernel (coqc, full .vo build; axioms printed per theorem, only those of the standard library's Reals where R is used), extraction with ExtrOcamlBasic/ExtrOcamlString only, the hand-written OCaml float dictionary (IEEE doubles + glibc libm stand in for R in the executable model) and driver, the Python serializer/comparator. Modelled, not verified: numpy, CPython float formatting/rounding, libqasm, quantify-scheduler, networkx. Between distance 1e-9 and 1e-4 nothing is demanded; |factor| = 1 for unitaries is not proved.",
+        "text": "check_sound (acceptance => on the gate's qubits, matrices agree up to one factor within 1e-8+1e-5|.|), completeness in the exact regime, empty list accepted for an identity gate, foreign qubits rejected first, failure state of the loop, replacer keyed on the generator name, and the embedding theorem (what was compared on k qubits is what happens on n). (gate, candidate) pairs with perturbations and faulty decomposers at every position. The checker's verdict is carried from the gate's own qubits to the register (check_exact_lifts, check_sound_lifts); replace(CNOT->H CZ H) and (CZ->H CNOT H) preserve the operation on any register; the repaired comparison (phase reference = largest entry, tolerance ATOL) is modelled and re-proved (argmax_entry_spec, equiv_up_to_phase_well_conditioned). The accepted factor is a phase: for well-formed gates acceptance implies both matrices on the gate's qubits are unitary and the one factor p has | |p| - 1 | <= about sqrt(d)*1e-7 + 1e-5 (FactorP.factor_modulus_bounds_sqrt, FactorWfP.check_factor_near_unit_wf, with non-vacuity examples). Scripted passes check that acceptance does not depend on what the pass accepted before.",
+        "note": "Trusted: Coq kernel (coqc, full .vo build; axioms printed per theorem, only those of the standard library's Reals where R is used), extraction with ExtrOcamlBasic/ExtrOcamlString only, the hand-written OCaml float dictionary (IEEE doubles + glibc libm stand in for R in the executable model) and driver, the Python serializer/comparator. Modelled, not verified: numpy, CPython float formatting/rounding, libqasm, quantify-scheduler, networkx. Between distance 1e-9 and 1e-4 nothing is demanded of the verdict on a single pair (but the verdict must be the same alone and inside a pass).",
         "technique": 'Coq 8.16.1 proof over an executable Gallina model; model tied to /repo by extraction to OCaml run against the implementation on generated inputs (correspondence) and, for tables/constants, by a translator (tables, constants, numeric kernels) whose output is proved equal to the model; independent numpy oracle searches for failing inputs',
         "design_ref": "DESIGN.md section 6 C06",
     },
